@@ -20,15 +20,6 @@ Proof. induction l1 as [|x l1 IH]; intros [|y k1] l2 k2 H; cbn [length] in H; tr
   rewrite IH by lia. ring. Qed.
 
 
-Lemma nth_zipw f : forall r s j, (j < length r)%nat -> length r = length s ->
-  nth j (zipw f r s) 0 = w32 (f (nth j r 0) (nth j s 0)).
-Proof. induction r as [|x r IH]; intros [|y s] j Hj Hl; cbn [length] in *; try lia.
-  unfold zipw. cbn [combine map fst snd]. fold (zipw f r s). destruct j as [|j]; [reflexivity|].
-  cbn [nth]. apply IH; lia. Qed.
-Lemma zipw_length f r s : length r = length s -> length (zipw f r s) = length r.
-Proof. intro H. unfold zipw. rewrite map_length, combine_length. lia. Qed.
-
-
 Section Extract.
 Variable N : nat.
 Hypothesis Npos : (0 < N)%nat.
